@@ -1097,3 +1097,103 @@ VARIANTS += [
     V('C20-M35', 'M', ('C20',), CX, None, r"(\nclass SpawnProcess\(multiprocessing\.context\.SpawnProcess\):)(.*?)qh = logging\.handlers\.QueueHandler\(logger_queue\)", r"\nclass _QH(logging.handlers.QueueHandler):\n    def prepare(self, record):\n        return record\n\n\1\2qh = _QH(logger_queue)", ('C20-2',), note='seeded C20-r4m1 shape'),
     V('C20-E35', 'E', ALL, CX, None, r"(\nclass SpawnProcess\(multiprocessing\.context\.SpawnProcess\):)(.*?)qh = logging\.handlers\.QueueHandler\(logger_queue\)", r"\nclass _QH(logging.handlers.QueueHandler):\n    pass\n\n\1\2qh = _QH(logger_queue)", note='trivial subclass of QueueHandler'),
 ]
+
+
+# ---------------------------------------------------------------------- adjacent independent assignments swapped (pure right-hand sides, disjoint names)
+def _swap_independent(m):
+    import ast as _ast
+
+    src = m.group(0)
+    tree = _ast.parse(src)
+    n_sw = [0]
+
+    def names(node):
+        return {x.id for x in _ast.walk(node) if isinstance(x, _ast.Name)} | {_ast.unparse(x) for x in _ast.walk(node) if isinstance(x, _ast.Attribute)}
+
+    def pure(st):
+        return isinstance(st, _ast.Assign) and len(st.targets) == 1 and isinstance(st.targets[0], (_ast.Name, _ast.Attribute)) and not any(isinstance(x, (_ast.Call, _ast.Await, _ast.Yield, _ast.YieldFrom, _ast.NamedExpr, _ast.Subscript, _ast.Lambda)) for x in _ast.walk(st))
+
+    for fn in [x for x in _ast.walk(tree) if isinstance(x, (_ast.FunctionDef, _ast.AsyncFunctionDef))]:
+        for node in _ast.walk(fn):
+            for fld in ('body', 'orelse', 'finalbody'):
+                blk = getattr(node, fld, None)
+                if not (isinstance(blk, list) and blk and isinstance(blk[0], _ast.stmt)):
+                    continue
+                i = 0
+                while i + 1 < len(blk):
+                    a, b = blk[i], blk[i + 1]
+                    if pure(a) and pure(b):
+                        ta, tb = names(a.targets[0]), names(b.targets[0])
+                        if not (ta & names(b)) and not (tb & names(a)) and not any(t.startswith(u + '.') or u.startswith(t + '.') for t in ta for u in tb):
+                            blk[i], blk[i + 1] = b, a
+                            n_sw[0] += 1
+                            i += 2
+                            continue
+                    i += 1
+    if not n_sw[0]:
+        return src
+    return _ast.unparse(_ast.fix_missing_locations(tree)) + '\n'
+
+
+for _i, _m in enumerate(_MODS + [FU]):
+    VARIANTS.append(V(f'G-swp-{_i:02d}', 'E', ALL, _m, None, r'\A.*\Z', _swap_independent, flags=re.S, note='adjacent independent pure assignments swapped'))
+
+
+# ---------------------------------------------------------------------- comparisons mirrored (`a < b` -> `b > a`), augmented assignments written out
+def _mirror_compares(m):
+    import ast as _ast
+
+    src = m.group(0)
+    tree = _ast.parse(src)
+    flip = {_ast.Lt: _ast.Gt, _ast.Gt: _ast.Lt, _ast.LtE: _ast.GtE, _ast.GtE: _ast.LtE}
+    k = [0]
+    for fn in [x for x in _ast.walk(tree) if isinstance(x, (_ast.FunctionDef, _ast.AsyncFunctionDef))]:
+        for c in _ast.walk(fn):
+            if isinstance(c, _ast.Compare) and len(c.ops) == 1 and type(c.ops[0]) in flip:
+                c.left, c.comparators[0] = c.comparators[0], c.left
+                c.ops[0] = flip[type(c.ops[0])]()
+                k[0] += 1
+    return (_ast.unparse(_ast.fix_missing_locations(tree)) + '\n') if k[0] else src
+
+
+def _unaugment(m):
+    import ast as _ast
+
+    src = m.group(0)
+    tree = _ast.parse(src)
+    k = [0]
+
+    class T(_ast.NodeTransformer):
+        def visit_AugAssign(self, n):
+            if isinstance(n.target, _ast.Name) and isinstance(n.op, (_ast.Add, _ast.Sub)):
+                k[0] += 1
+                return _ast.copy_location(_ast.Assign(targets=[_ast.Name(id=n.target.id, ctx=_ast.Store())], value=_ast.BinOp(left=_ast.Name(id=n.target.id, ctx=_ast.Load()), op=n.op, right=n.value)), n)
+            return n
+
+    tree = T().visit(tree)
+    return (_ast.unparse(_ast.fix_missing_locations(tree)) + '\n') if k[0] else src
+
+
+for _i, _m in enumerate(_MODS + [FU]):
+    VARIANTS.append(V(f'G-mir-{_i:02d}', 'E', ALL, _m, None, r'\A.*\Z', _mirror_compares, flags=re.S, note='every ordering comparison mirrored'))
+    VARIANTS.append(V(f'G-aug-{_i:02d}', 'E', ALL, _m, None, r'\A.*\Z', _unaugment, flags=re.S, note='`n += 1` written out as `n = n + 1`'))
+
+
+# ---------------------------------------------------------------------- every two-armed `if` turned around (`if not c: <else arm> else: <if arm>`)
+def _swap_arms(m):
+    import ast as _ast
+
+    src = m.group(0)
+    tree = _ast.parse(src)
+    k = [0]
+    for fn in [x for x in _ast.walk(tree) if isinstance(x, (_ast.FunctionDef, _ast.AsyncFunctionDef))]:
+        for n in _ast.walk(fn):
+            if isinstance(n, _ast.If) and n.orelse and not (len(n.orelse) == 1 and isinstance(n.orelse[0], _ast.If)) and not any(isinstance(x, _ast.NamedExpr) for x in _ast.walk(n.test)):
+                n.test = n.test.operand if isinstance(n.test, _ast.UnaryOp) and isinstance(n.test.op, _ast.Not) else _ast.UnaryOp(op=_ast.Not(), operand=n.test)
+                n.body, n.orelse = n.orelse, n.body
+                k[0] += 1
+    return (_ast.unparse(_ast.fix_missing_locations(tree)) + '\n') if k[0] else src
+
+
+for _i, _m in enumerate(_MODS + [FU]):
+    VARIANTS.append(V(f'G-arm-{_i:02d}', 'E', ALL, _m, None, r'\A.*\Z', _swap_arms, flags=re.S, note='every if/else turned around under not'))
